@@ -55,6 +55,7 @@ func (f *fetcher) handleUpstream304(req *http.Request, key cache.CacheKey) (cach
 	}
 
 	slog.Debug("Successfully revalidated cache metadata", "url", req.URL, "key", key)
+	verifhook.Point("reval.afterRenew", key.Hex)
 	cached, err = f.cache.Get(key)
 	if err != nil {
 		return nil, fmt.Errorf("%w: %w: %v", ErrNotCacheable, ErrCacheGetFailed, err)
